@@ -17,6 +17,7 @@ typedef struct {
     bool has_dtor;
     int dtor_runs;
     bool freed;         /* enclosing allocation went back to the allocator */
+    bool parked;        /* its destructor kept a reference on it */
     int alloc_by;       /* which of the two allocators was configured when the block was created */
     int children[MAXCH];/* slots whose reference this block owns (dropped in its dtor) */
     int nch;
@@ -50,6 +51,7 @@ static bool intact(blk_t *b) {
 
 static void drop(int slot);
 
+static long long n_parked, n_unparked;
 static long long n_self_lock;
 static void dtor_cb(void *p) {
     blk_t *b = by_ptr(p);
@@ -69,6 +71,13 @@ static void dtor_cb(void *p) {
         if (m_mem_size(p) != b->size) vf_fail("C10/size-mismatch", "seed=%llu in dtor (referenced again): m_mem_size=%zu requested=%zu", seq_seed, m_mem_size(p), b->size);
         m_mem_unref(p);
         if (b->freed) { vf_fail("C10/freed-inside-dtor", "seed=%llu op=%d block size=%zu was handed back to the allocator while its destructor was still running (balanced ref/unref inside it)", seq_seed, op_idx, b->size); return; }
+    }
+    /* a destructor may also keep the block for itself (park it in a cache): it then stays alive, un-destroyed-again, until
+     * that reference is dropped too */
+    if (b->tag % 5 == 0 && !b->parked) {
+        m_mem_ref(p);
+        b->parked = true; b->refs = 1;
+        n_parked++;
     }
     /* nested: release the references this block owns */
     for (int i = 0; i < b->nch; i++) {
@@ -110,6 +119,19 @@ static void on_free(void *p, int tag, size_t asize) {
 }
 
 /* model + real: drop one reference of slot */
+/* the last reference the harness knew of is gone: the destructor has run (once); the block is back with the allocator unless
+ * the destructor kept it */
+static void settle_last(blk_t *b, size_t size) {
+    if (b->has_dtor && b->dtor_runs != 1) vf_fail("C10/dtor-not-run-at-last-unref", "seed=%llu op=%d size=%zu runs=%d", seq_seed, op_idx, size, b->dtor_runs);
+    if (b->parked && b->refs == 1) {
+        if (b->freed) vf_fail("C10/freed-while-referenced", "seed=%llu op=%d block size=%zu: its destructor kept a reference on it, yet the allocation was handed back", seq_seed, op_idx, size);
+        return;
+    }
+    if (b->parked) n_unparked++;
+    if (!b->freed) vf_fail("C10/not-freed-at-last-unref", "seed=%llu op=%d size=%zu: allocation not returned to the configured allocator", seq_seed, op_idx, size);
+    memset(b, 0, sizeof(*b));
+}
+
 static void drop(int slot) {
     blk_t *b = &B[slot];
     if (!b->p || b->refs <= 0) { vf_fail("HARNESS/drop", "bad drop"); return; }
@@ -120,11 +142,9 @@ static void drop(int slot) {
     void *r = m_mem_unref(p);
     if (r != NULL) vf_fail("C10/unref-return", "m_mem_unref returned %p, expected NULL", r);
     if (last) {
-        if (b->has_dtor && b->dtor_runs != 1) vf_fail("C10/dtor-not-run-at-last-unref", "seed=%llu op=%d size=%zu runs=%d", seq_seed, op_idx, b->size, b->dtor_runs);
-        if (!b->freed) vf_fail("C10/not-freed-at-last-unref", "seed=%llu op=%d size=%zu: allocation not returned to the configured allocator", seq_seed, op_idx, b->size);
-        memset(b, 0, sizeof(*b));
+        settle_last(b, b->size);
     } else {
-        if (b->dtor_runs) vf_fail("C10/dtor-before-last-unref", "seed=%llu op=%d", seq_seed, op_idx);
+        if (b->dtor_runs && !b->parked) vf_fail("C10/dtor-before-last-unref", "seed=%llu op=%d", seq_seed, op_idx);
         if (b->freed) vf_fail("C10/freed-before-last-unref", "seed=%llu op=%d", seq_seed, op_idx);
     }
 }
@@ -163,7 +183,7 @@ static void check_all(void) {
     for (int i = 0; i < MAXB; i++) {
         blk_t *b = &B[i];
         if (!b->p) continue;
-        if (b->freed || b->dtor_runs) vf_fail("C10/live-block-destroyed", "seed=%llu op=%d slot=%d refs=%d", seq_seed, op_idx, i, b->refs);
+        if (b->freed || (b->dtor_runs && !b->parked)) vf_fail("C10/live-block-destroyed", "seed=%llu op=%d slot=%d refs=%d", seq_seed, op_idx, i, b->refs);
         if (!intact(b)) vf_fail("C10/live-block-corrupt", "seed=%llu op=%d slot=%d size=%zu content changed while referenced", seq_seed, op_idx, i, b->size);
         if (m_mem_size(b->p) != b->size) vf_fail("C10/size-mismatch", "seed=%llu op=%d m_mem_size=%zu requested=%zu", seq_seed, op_idx, m_mem_size(b->p), b->size);
     }
@@ -236,12 +256,7 @@ static void run_sequence(uint64_t seed, int maxops, bool sample) {
                 n_unref++;
                 m_mem_unrefp(&tmp);
                 if (tmp != NULL) vf_fail("C10/unrefp-not-nulled", "m_mem_unrefp left %p", tmp);
-                if (last) {
-                    blk_t *b = &B[slot];
-                    if (b->has_dtor && b->dtor_runs != 1) vf_fail("C10/dtor-not-run-at-last-unref", "seed=%llu op=%d size=%zu runs=%d", seq_seed, op_idx, copy.size, b->dtor_runs);
-                    if (!b->freed) vf_fail("C10/not-freed-at-last-unref", "seed=%llu op=%d size=%zu", seq_seed, op_idx, copy.size);
-                    memset(b, 0, sizeof(*b));
-                }
+                if (last) settle_last(&B[slot], copy.size);
             } else {
                 drop(slot);
             }
@@ -318,6 +333,7 @@ int main(int argc, char **argv) {
             drop(s);
             check_all();
             drop(s);
+            if (B[s].p && B[s].parked) drop(s);      /* the reference its destructor kept */
             swept++;
         }
     }
@@ -337,6 +353,8 @@ int main(int argc, char **argv) {
     }
     vf_stat("allocator_switches", n_switches);
     vf_stat("destructors_locking_their_own_block", n_self_lock);
+    vf_stat("blocks_kept_by_their_destructor", n_parked);
+    vf_stat("kept_blocks_released_later", n_unparked);
     vf_stat("blocks_from_allocator_A", n_alloc_by[0]);
     vf_stat("blocks_from_allocator_B", n_alloc_by[1]);
     if (n_alloc_by[0] != n_free_by[0] || n_alloc_by[1] != n_free_by[1])
